@@ -1,5 +1,6 @@
 //! mlv — correspondence harness between the Coq model (/verif/coq) and the crate in /repo.
 mod c03;
+mod c10;
 mod c11;
 mod c12;
 mod c19;
@@ -110,6 +111,16 @@ fn main() {
             let o = c03::generate(seed, scale, cmd);
             o.write(&out, cmd, "From MLV Require Import model.Bytes model.Id model.Node model.Server model.Check11 model.Check03.", "c03full", "run03", shards);
         }
+        "c10" | "c05" => {
+            let mut o = c10::generate(seed, scale, cmd == "c05");
+            if cmd == "c05" {
+                let n = if args.iter().any(|a| a == "--sweep-big") { 20000 } else { 1500 };
+                let (count, bad) = c10::panic_sweep(seed, n);
+                o.extra.push(("native_panic_sweep".into(), count.to_string()));
+                o.extra.push(("native_panic_sweep_fail".into(), match bad { None => "null".to_string(), Some(b) => format!("\"{}\"", b.iter().map(|x| format!("{:02x}", x)).collect::<String>()) }));
+            }
+            o.write(&out, cmd, "From MLV Require Import model.Bytes model.Id model.Server model.Bencode model.Krpc model.Check10.", "c10case", "run10", shards);
+        }
         "c11" => {
             let o = c11::generate(seed, scale);
             o.write(&out, "c11", "From MLV Require Import model.Bytes model.Id model.Node model.Check11.", "c11case", "run11", shards);
@@ -117,6 +128,15 @@ fn main() {
         "c12" => {
             let o = c12::generate(seed, scale);
             o.write(&out, "c12", "From MLV Require Import model.Bytes model.Id model.Node model.Check11 model.Check12.", "c12case", "run12", shards);
+        }
+        "decode-hex" => {
+            let h = arg(&args, "--hex").unwrap_or("");
+            let b: Vec<u8> = (0..h.len() / 2).map(|i| u8::from_str_radix(&h[2 * i..2 * i + 2], 16).unwrap()).collect();
+            println!("{:?}", dht::verif::decode(&b));
+        }
+        "decode-str" => {
+            let h = arg(&args, "--s").unwrap_or("");
+            println!("{:?}", dht::verif::decode(h.as_bytes()));
         }
         "params" => {
             println!("(* generated by `mlv params` from the compiled crate in /repo on every run; do not edit *)");
